@@ -156,7 +156,7 @@ PROPS = {
         "corr": "policy.PolicyVerifier.VerifyRefFull / VerifyRef / VerifyRefFromEntry vs verify_full / verify_latest / verify_from (World.v)",
         "rule": 'profile C02 (every policy update may be one of the 9 forbidden mutations). generated worlds in an in-memory Storer with real ed25519 signatures: an initial policy (root key(s), primary rule file with 2-4 developers, 1-3 rules incl. thresholds 1-3, optionally one delegated rule file, optionally global rules), then 4-21 events from: pushes to main/feature/other signed by authorised / unauthorised / admin / no key (12% force pushes, 10% tree-reusing commits), approvals (reference authorizations signed by subsets of developers, some for other changes or stored at other paths) followed by the push, policy updates (valid evolutions: rule changes, root rotation, threshold raises, global rules added/dropped; one third forbidden ones: unsigned / wrongly signed root, forged or rolled-back rule files, dropped or dangling delegated files, self-signed replacement root), skip annotations (mostly on violating pushes), fix pushes (tree-same as the last good state), staging and propagation entries. Each world is verified in full for main and feature, latest-only for main and from a random earlier entry. non-trivial = >=2 policy states or a rejected verification',
         "theorems": ['C02_load_state_chain', 'C02_link', 'C02_initial_policy', 'C02_modes_share_the_loop'],
-        "trusted": ["symbolic cryptography; developers' keys are disjoint from root/primary-rule-file keys and from each other in generated worlds (shared keys make the Go map iteration order observable)", 'the harness world builder writes policy and attestation commits directly (bypassing Apply, which would refuse the forbidden states) and the in-memory Storer', 'not modelled: tags, file rules (C10), code-review approvals, controller repositories, the persistent cache (C08), hooks', 'error kinds are compared for correspondence; the property is decided on accept/reject and the tip'],
+        "trusted": ["symbolic cryptography; developers' keys are disjoint from root/primary-rule-file keys and from each other in generated worlds (shared keys make the Go map iteration order observable)", 'the harness world builder writes policy and attestation commits directly (bypassing Apply, which would refuse the forbidden states) and the in-memory Storer', 'not modelled: tags, file rules (C10), code-review approvals, the verification of declared controller repositories (inherited global rules are modelled from the controller metadata copies in the policy tree), the persistent cache (C08), hooks', 'error kinds are compared for correspondence; the property is decided on accept/reject and the tip'],
         "assumptions": [],
     },
     "C07": {
@@ -165,7 +165,7 @@ PROPS = {
         "corr": "policy.PolicyVerifier.VerifyRefFull / VerifyRef / VerifyRefFromEntry vs verify_full / verify_latest / verify_from (World.v)",
         "rule": 'profile C07 + directed replay of K5. generated worlds in an in-memory Storer with real ed25519 signatures: an initial policy (root key(s), primary rule file with 2-4 developers, 1-3 rules incl. thresholds 1-3, optionally one delegated rule file, optionally global rules), then 4-21 events from: pushes to main/feature/other signed by authorised / unauthorised / admin / no key (12% force pushes, 10% tree-reusing commits), approvals (reference authorizations signed by subsets of developers, some for other changes or stored at other paths) followed by the push, policy updates (valid evolutions: rule changes, root rotation, threshold raises, global rules added/dropped; one third forbidden ones: unsigned / wrongly signed root, forged or rolled-back rule files, dropped or dangling delegated files, self-signed replacement root), skip annotations (mostly on violating pushes), fix pushes (tree-same as the last good state), staging and propagation entries. Each world is verified in full for main and feature, latest-only for main and from a random earlier entry. non-trivial = >=2 policy states or a rejected verification',
         "theorems": ['C07_tolerated_only_if_recovered', 'C07_fix_search'],
-        "trusted": ["symbolic cryptography; developers' keys are disjoint from root/primary-rule-file keys and from each other in generated worlds (shared keys make the Go map iteration order observable)", 'the harness world builder writes policy and attestation commits directly (bypassing Apply, which would refuse the forbidden states) and the in-memory Storer', 'not modelled: tags, file rules (C10), code-review approvals, controller repositories, the persistent cache (C08), hooks', 'error kinds are compared for correspondence; the property is decided on accept/reject and the tip'],
+        "trusted": ["symbolic cryptography; developers' keys are disjoint from root/primary-rule-file keys and from each other in generated worlds (shared keys make the Go map iteration order observable)", 'the harness world builder writes policy and attestation commits directly (bypassing Apply, which would refuse the forbidden states) and the in-memory Storer', 'not modelled: tags, file rules (C10), code-review approvals, the verification of declared controller repositories (inherited global rules are modelled from the controller metadata copies in the policy tree), the persistent cache (C08), hooks', 'error kinds are compared for correspondence; the property is decided on accept/reject and the tip'],
         "assumptions": [],
     },
     "C09": {
@@ -183,9 +183,9 @@ PROPS = {
         "propfile": "PropC11.v",
         "n": {"quick": 300, "thorough": 8000},
         "corr": "policy.PolicyVerifier.VerifyRefFull / VerifyRef / VerifyRefFromEntry vs verify_full / verify_latest / verify_from (World.v)",
-        "rule": 'profile C11 (every policy carries 1-2 global rules: threshold 1-3 / block-force-push over matching and non-matching patterns); every history is verified under P and under P minus its global rules and the pair is checked for monotonicity. generated worlds in an in-memory Storer with real ed25519 signatures: an initial policy (root key(s), primary rule file with 2-4 developers, 1-3 rules incl. thresholds 1-3, optionally one delegated rule file, optionally global rules), then 4-21 events from: pushes to main/feature/other signed by authorised / unauthorised / admin / no key (12% force pushes, 10% tree-reusing commits), approvals (reference authorizations signed by subsets of developers, some for other changes or stored at other paths) followed by the push, policy updates (valid evolutions: rule changes, root rotation, threshold raises, global rules added/dropped; one third forbidden ones: unsigned / wrongly signed root, forged or rolled-back rule files, dropped or dangling delegated files, self-signed replacement root), skip annotations (mostly on violating pushes), fix pushes (tree-same as the last good state), staging and propagation entries. Each world is verified in full for main and feature, latest-only for main and from a random earlier entry. non-trivial = >=2 policy states or a rejected verification',
-        "theorems": ['C11_globals_only_restrict', 'C11_history_level_refuted_K14'],
-        "trusted": ["symbolic cryptography; developers' keys are disjoint from root/primary-rule-file keys and from each other in generated worlds (shared keys make the Go map iteration order observable)", 'the harness world builder writes policy and attestation commits directly (bypassing Apply, which would refuse the forbidden states) and the in-memory Storer', 'not modelled: tags, file rules (C10), code-review approvals, controller repositories, the persistent cache (C08), hooks', 'error kinds are compared for correspondence; the property is decided on accept/reject and the tip'],
+        "rule": 'profile C11 (every policy carries global rules: 1-2 of its own and/or 0-2 per controller for 1-2 controller repositories whose metadata copies sit in the policy tree; threshold 1-3 / block-force-push over matching and non-matching patterns); every history is verified under P and under P minus its global rules and the pair is checked for monotonicity. generated worlds in an in-memory Storer with real ed25519 signatures: an initial policy (root key(s), primary rule file with 2-4 developers, 1-3 rules incl. thresholds 1-3, optionally one delegated rule file, optionally global rules), then 4-21 events from: pushes to main/feature/other signed by authorised / unauthorised / admin / no key (12% force pushes, 10% tree-reusing commits), approvals (reference authorizations signed by subsets of developers, some for other changes or stored at other paths) followed by the push, policy updates (valid evolutions: rule changes, root rotation, threshold raises, global rules added/dropped; one third forbidden ones: unsigned / wrongly signed root, forged or rolled-back rule files, dropped or dangling delegated files, self-signed replacement root), skip annotations (mostly on violating pushes), fix pushes (tree-same as the last good state), staging and propagation entries. Each world is verified in full for main and feature, latest-only for main and from a random earlier entry. non-trivial = >=2 policy states or a rejected verification',
+        "theorems": ['C11_globals_only_restrict', 'C11_inherited_globals_only_restrict', 'C11_history_level_refuted_K14'],
+        "trusted": ["symbolic cryptography; developers' keys are disjoint from root/primary-rule-file keys and from each other in generated worlds (shared keys make the Go map iteration order observable)", 'the harness world builder writes policy and attestation commits directly (bypassing Apply, which would refuse the forbidden states) and the in-memory Storer', 'not modelled: tags, file rules (C10), code-review approvals, the verification of declared controller repositories (inherited global rules are modelled from the controller metadata copies in the policy tree), the persistent cache (C08), hooks', 'error kinds are compared for correspondence; the property is decided on accept/reject and the tip'],
         "assumptions": [],
     },
     "C16": {
@@ -203,7 +203,7 @@ PROPS = {
         "trusted": [
             "fault points are storage-INTERFACE calls on the harness's in-memory Storer; points inside gitinterface.Repository methods "
             "(between git subprocesses) are not enumerated",
-            "the diverged case of ReconcileStaging, hooks, controller metadata and the experimental/gittuf API wrappers are not enumerated",
+            "ReconcileStaging is enumerated for policy strictly ahead of staging and for diverged refs (no controller metadata in either); hooks and the experimental/gittuf API wrappers are not enumerated",
         ],
         "assumptions": ["a single failure per operation; the compensation itself does not fail"],
     },
